@@ -126,7 +126,7 @@ impl ControlBlock {
 //@|     lemma_fold_push(tap_leaf_hash(*script, self.leaf_version), bs.take(i), elem@);
 //@|     lemma_pair_code(curr_hash@, elem@);
 //@| }
-//@at "let tweak = TapTweakHash :: from_key_and_tweak" before
+//@loop-pos 1 after
 //@| proof { let bs = branch_seq(self.merkle_branch); assert(bs.take(bs.len() as int) =~= bs); }
 //@end
 }
